@@ -198,3 +198,41 @@ def evaluate(module, timeout=600, env=None, xmx="4g"):
     if rc != 0:
         raise TlcError("TLC evaluation failed:\n" + out[-3000:])
     return out
+
+
+def write_cfg(path, spec=None, consts=None, invariants=(), properties=(), constraint=None, view=None, subst=None):
+    """Write a TLC cfg file.  consts: name -> literal; subst: name -> definition name (<-)."""
+    with open(path, "w") as fh:
+        if spec:
+            fh.write(f"SPECIFICATION {spec}\n")
+        if consts or subst:
+            fh.write("CONSTANTS\n")
+            for k, v in (consts or {}).items():
+                fh.write(f"  {k} = {v}\n")
+            for k, v in (subst or {}).items():
+                fh.write(f"  {k} <- {v}\n")
+        if view:
+            fh.write(f"VIEW {view}\n")
+        if constraint:
+            fh.write(f"CONSTRAINT {constraint}\n")
+        for i in invariants:
+            fh.write(f"INVARIANT {i}\n")
+        for i in properties:
+            fh.write(f"PROPERTY {i}\n")
+    return path
+
+
+_RE_BEH = re.compile(r'^<<"BEHAVIOUR", "(.*)">>\s*$', re.M)
+
+
+def behaviours(module, cfg, simulate=None, depth=None, seed=None, timeout=1800, xmx="6g"):
+    """Run a spec whose invariant Emit prints <<"BEHAVIOUR", ToJson(hist)>> and return
+    (list of parsed histories, model_check result).  Single worker so lines do not interleave."""
+    r = model_check(module, cfg=cfg, workers=1, timeout=timeout, xmx=xmx, simulate=simulate, depth=depth, seed=seed)
+    if r["rc"] != 0 or "Error:" in r["out"]:
+        raise TlcError(f"behaviour generation failed for {module}:\n" + r["out"][-3000:])
+    hs = []
+    for m in _RE_BEH.finditer(r["out"]):
+        txt = m.group(1).replace('\\"', '"').replace("\\\\", "\\")
+        hs.append(json.loads(txt))
+    return hs, r
